@@ -1,4 +1,5 @@
 import MiniconfVerif.Model.PyClient
+import MiniconfVerif.Gen.Py
 import MiniconfVerif.Model.PathDriver
 
 /-! Line protocol for the Python-client model (`py` stream; same text as pyharness/pydriver.py). -/
@@ -77,7 +78,8 @@ def parseCode (tok : String) : Option (Option Str) :=
     | c :: _ => if c.isUpper then some (some tok.toList) else (decStr tok).map some
     | [] => none
 
-def event (d : DSt) (tok : String) : Option DSt :=
+/-- `tb`: the dispatcher table extracted from the variant's source (`Gen/Py.lean`) -/
+def event (tb : PyTable.Table) (d : DSt) (tok : String) : Option DSt :=
   match tok.splitOn ":" with
   | [kind, path] =>
     -- `inpub:n`: delivery while `publish()` is still in progress; the request is registered before
@@ -101,13 +103,14 @@ def event (d : DSt) (tok : String) : Option DSt :=
     let payload ← decStr payload
     let cd ← parseCd cd
     let code ← parseCode code
-    some { d with st := dispatch respTopic d.st ⟨topic, payload, cd, code⟩ }
+    some { d with st := PyTable.run tb respTopic d.st ⟨topic, payload, cd, code⟩ }
   | _ => none
 
 def run (variant : String) (events : List String) : String :=
+  let tb := if variant = "async" then Gen.Py.asyncTable else Gen.Py.syncTable
   let rec go (d : DSt) : List String → Option DSt
     | [] => some d
-    | e :: es => match event d e with
+    | e :: es => match event tb d e with
       | some d' => go d' es
       | none => none
   match go {} events with
@@ -139,8 +142,8 @@ def runNorm (paths : List String) : String :=
       match decStr p with
       | none => ["bad"]
       | some path =>
-        let r := normalize cur path
-        encStr r.2 :: go r.1 ps
+        let r := Gen.Py.normalize cur path      -- `_Path.normalize` as extracted from common.py
+        encStr r.2.1 :: go r.1 ps
   " ".intercalate (go [] paths)
 
 end MiniconfVerif.PyDriver
